@@ -173,6 +173,46 @@ func childC16(args []string) int {
 			st.ResetLog()
 			res = handlerExec(h, wire.Cmd{Op: op, Key: key, Value: val}, 0)
 			total = base + vl
+		case "append-foreign", "prepend-foreign":
+			// the backend already holds the key in a layout another writer produced (the read
+			// path honours the chunk size recorded in the metadata): what THIS handler writes
+			// for the key must still follow its own discipline
+			p := chunkPayload(kl)
+			fp := p + []int{4, -240, 296, -1}[rng.Intn(4)]
+			if fp < 8 {
+				fp = p + 4
+			}
+			base := 1 + rng.Intn(3*fp)
+			bv := makeValue(id, base)
+			id++
+			var tok [16]byte
+			for i := range tok {
+				tok[i] = byte(0xA0 + i)
+			}
+			nch := (base + fp - 1) / fp
+			for i := 0; i < nch; i++ {
+				chunk := make([]byte, 16+fp)
+				copy(chunk, tok[:])
+				copy(chunk[16:], bv[i*fp:minInt(len(bv), (i+1)*fp)])
+				st.Put(fmt.Sprintf("%s-%d", key, i), chunk, 0, 0)
+			}
+			md := make([]byte, 40)
+			binary.BigEndian.PutUint32(md[0:4], uint32(base))
+			binary.BigEndian.PutUint32(md[4:8], 0x1234)
+			binary.BigEndian.PutUint32(md[8:12], uint32(nch))
+			binary.BigEndian.PutUint32(md[12:16], uint32(fp))
+			binary.BigEndian.PutUint32(md[16:20], st.Now())
+			copy(md[24:], tok[:])
+			st.Put(key+"-meta", md, 0, 0)
+			g := handlerExec(h, wire.Cmd{Op: "get", Keys: []string{key}, Opaque: 1}, 0)
+			if len(g.Values) != 1 || !bytes.Equal(g.Values[0].Data, bv) {
+				run.Count("foreign_layouts_not_readable", 1) // nothing to extend then
+				return
+			}
+			run.Count("foreign_layouts_extended", 1)
+			st.ResetLog()
+			res = handlerExec(h, wire.Cmd{Op: strings.TrimSuffix(op, "-foreign"), Key: key, Value: val}, 0)
+			total = base + vl
 		case "touch", "gat":
 			handlerExec(h, wire.Cmd{Op: "set", Key: key, Value: val}, 0)
 			st.ResetLog()
@@ -226,6 +266,7 @@ func childC16(args []string) int {
 			doWrite(kl, 1+rng.Intn(2*p), "touch")
 			doWrite(kl, 1+rng.Intn(2*p), "gat")
 			doWrite(kl, 1+rng.Intn(2*p), []string{"set-past", "replace-past", "add-past"}[kl%3])
+			doWrite(kl, 1+rng.Intn(2*p), []string{"append-foreign", "prepend-foreign"}[(kl/5)%2])
 		}
 		st.EvictAll()
 	}
